@@ -637,7 +637,8 @@ class Evaluator:
             except Undecided:
                 v = SymObj(f'{m.name.split(".")[-1]}.{n}')
             self.__dict__.setdefault('const_heap', {}).update(tmp.heap)
-            if isinstance(v, (Scalar, Const, EnumVal, Tup, DictVal)):
+            if isinstance(v, (Scalar, Const, EnumVal, Tup, DictVal)) or (isinstance(v, FuncRef) and v.func is None
+                                                                       and isinstance(v.lam, tuple)):
                 cache[key] = v
             return v
         raise Undecided(f'name {name}')
@@ -1140,7 +1141,12 @@ class Evaluator:
         args: List[AV] = []
         for a in node.args:
             if isinstance(a, ast.Starred):
-                raise Undecided('star-args')
+                sv = self.eval(a.value, st, ctx)
+                its = self.items(st, sv) if not isinstance(sv, Cond) else None
+                if its is None:
+                    raise Undecided('star-args')
+                args.extend(its)
+                continue
             args.append(self.eval(a, st, ctx))
         kwargs: Dict[str, AV] = {}
         for k in node.keywords:
@@ -1207,6 +1213,28 @@ class Evaluator:
     def builtin_method(self, fv: FuncRef, args, kwargs, st: State, ctx: Ctx) -> AV:
         kind, name = fv.lam
         base = fv.self_val
+        if kind == 'partial':
+            f0, a0, k0 = name
+            return self.lift(lambda f: self.call(f, list(a0) + list(args), {**k0, **kwargs}, st, ctx), f0)
+        if kind == 'attrgetter':
+            if len(args) != 1 or kwargs:
+                raise Undecided('attrgetter call')
+
+            def _get(path_: str) -> AV:
+                v_ = args[0]
+                for part in path_.split('.'):
+                    v_ = self.lift(lambda o, part=part: self.getattr(o, part, st, ctx), v_)
+                return v_
+            return _get(name[0]) if len(name) == 1 else Tup([_get(n_) for n_ in name])
+        if kind == 'itemgetter':
+            if len(args) != 1 or kwargs:
+                raise Undecided('itemgetter call')
+            got = [self.lift(lambda b_, i_=i_: self.getitem(b_, i_, st, ctx), args[0]) for i_ in name]
+            return got[0] if len(got) == 1 else Tup(got)
+        if kind == 'listmethod' and name == 'sort' and not args:
+            items = st.heap[base.oid]['$items']
+            items[:] = self.sort_items(items, kwargs, st, ctx)
+            return NONE
         if kind == 'listmethod':
             items = st.heap[base.oid]['$items']
             if name == 'append':
@@ -1449,6 +1477,33 @@ class Evaluator:
         if mod == 'math' or (mod == 'builtins' and name in ('abs', 'min', 'max', 'float', 'int', 'round')):
             extra = [kwargs[k] for k in sorted(kwargs)] if name == 'round' else []
             return self.lift(lambda *xs: self.math_call(mod, name, list(xs), st, ctx), *(list(args) + extra))
+        if mod == 'functools' and name == 'partial' and args:
+            return FuncRef(None, lam=('partial', (args[0], list(args[1:]), dict(kwargs))))
+        if mod == 'operator':
+            if name == 'attrgetter' and args and not kwargs and all(isinstance(a_, Const) and isinstance(a_.value, str)
+                                                                    for a_ in args):
+                return FuncRef(None, lam=('attrgetter', tuple(a_.value for a_ in args)))
+            if name == 'itemgetter' and args and not kwargs:
+                return FuncRef(None, lam=('itemgetter', tuple(args)))
+            cmp_ = {'lt': ast.Lt, 'le': ast.LtE, 'gt': ast.Gt, 'ge': ast.GtE, 'eq': ast.Eq, 'ne': ast.NotEq,
+                    'is_': ast.Is, 'is_not': ast.IsNot}
+            bin_ = {'add': ast.Add, 'sub': ast.Sub, 'mul': ast.Mult, 'truediv': ast.Div, 'floordiv': ast.FloorDiv,
+                    'mod': ast.Mod, 'pow': ast.Pow, 'rshift': ast.RShift, 'lshift': ast.LShift}
+            if name in cmp_ and len(args) == 2 and not kwargs:
+                return self.compare(cmp_[name](), args[0], args[1], st, ctx)
+            if name in bin_ and len(args) == 2 and not kwargs:
+                return self.binop(bin_[name](), args[0], args[1], st, ctx)
+            if name in ('neg', 'not_', 'truth', 'abs') and len(args) == 1 and not kwargs:
+                if name == 'neg':
+                    return self.lift(lambda x_: Scalar(-self.scalar(x_)), args[0])
+                if name == 'abs':
+                    return self.lift(lambda x_: self.math_call('builtins', 'abs', [x_], st, ctx), args[0])
+
+                def tr_(x_: AV) -> AV:
+                    t_ = self.truth(x_, st)
+                    v_ = Const(t_) if isinstance(t_, bool) else Cond(t_, TRUE, FALSE)
+                    return self._not(v_) if name == 'not_' else v_
+                return self.lift(tr_, args[0])
         if mod == 'object' and name == '__new__':
             if isinstance(args[0], ClassRef):
                 return self.new_inst(st, args[0].ci, {})
@@ -1472,6 +1527,25 @@ class Evaluator:
                     tr = self.truth(x, st)
                     return Const(tr) if isinstance(tr, bool) else Cond(tr, TRUE, FALSE)
                 return self.lift(b, args[0])
+            if name == 'sorted' and len(args) == 1 and not isinstance(args[0], Cond):
+                its = self.items(st, args[0])
+                if its is not None and len(its) > 1:
+                    return self.new_list(st, self.sort_items(its, kwargs, st, ctx))
+            if name in ('all', 'any') and len(args) == 1 and not kwargs and not isinstance(args[0], Cond):
+                its = self.items(st, args[0])
+                if its is not None:
+                    def fold(i_: int) -> AV:
+                        if i_ == len(its):
+                            return TRUE if name == 'all' else FALSE
+
+                        def pick(x_: AV) -> AV:
+                            tr = self.truth(x_, st)
+                            if isinstance(tr, bool):
+                                return fold(i_ + 1) if tr == (name == 'all') else (FALSE if name == 'all' else TRUE)
+                            rest_ = fold(i_ + 1)
+                            return self.mk_cond(tr, rest_, FALSE) if name == 'all' else self.mk_cond(tr, TRUE, rest_)
+                        return self.lift(pick, its[i_])
+                    return fold(0)
             if name in ('tuple', 'list', 'sorted', 'reversed', 'set', 'frozenset') and args:
                 def _seq(x: AV) -> AV:
                     its = self.items(st, x)
@@ -1549,6 +1623,32 @@ class Evaluator:
                 return args[0]          # get_args(Literal[...]) read from the source of the alias
             raise Undecided(f'typing call {name}')
         raise Undecided(f'external call {mod}.{name}')
+
+    def sort_items(self, its: List[AV], kwargs: Dict[str, AV], st: State, ctx: Ctx) -> List[AV]:
+        """sorted()/list.sort() on known items whose keys are concrete numbers (stable, as the real one)."""
+        key = kwargs.get('key')
+        rev = kwargs.get('reverse', FALSE)
+        if set(kwargs) - {'key', 'reverse'} or not (isinstance(rev, Const) and isinstance(rev.value, bool)):
+            raise Undecided('sort arguments')
+        keys = []
+        for it in its:
+            kv = it if key is None or key is NONE or (isinstance(key, Const) and key.value is None) \
+                else self.call(key, [it], {}, st, ctx)
+            if isinstance(kv, Inst):
+                # quantities order by their raw magnitude when the class says so
+                lt = self.prog.find_method(kv.cls, '__lt__')
+                raw = self.hp(st, kv.oid).get('_value')
+                if lt is None or raw is None:
+                    raise Undecided('sort key is an object')
+                kv = raw
+            if isinstance(kv, Tup) and all(self.is_concrete_number(x_) for x_ in kv.items):
+                keys.append(tuple(self.scalar(x_).const_value() for x_ in kv.items))
+                continue
+            if not self.is_concrete_number(kv):
+                raise Undecided('sort key is not a concrete number')
+            keys.append(self.scalar(kv).const_value())
+        order = sorted(range(len(its)), key=lambda i_: keys[i_], reverse=rev.value)
+        return [its[i_] for i_ in order]
 
     def isinstance_(self, x: AV, spec: AV, st: State) -> AV:
         specs = spec.items if isinstance(spec, Tup) else [spec]
@@ -1727,6 +1827,14 @@ class Evaluator:
                     its_ = None
                 if its_ is not None:
                     return self.unroll_for(s, list(its_), 0, rest, st, ctx)
+            if isinstance(s, ast.For) and not getattr(self, 'unroll', False):
+                # a scan over a constant table (tuple of literals / enum members) is read iteration by iteration
+                try:
+                    itv = self.eval(s.iter, st.copy(), ctx)
+                except Undecided:
+                    itv = None
+                if isinstance(itv, Tup) and 0 < len(itv.items) <= 40 and all(self._is_literal(x_) for x_ in itv.items):
+                    return self.unroll_for(s, list(itv.items), 0, rest, st, ctx)
             if isinstance(s, (ast.While, ast.For)):
                 self.havoc_loop(s, st, ctx)
                 early = self.loop_early_exits(s, st, ctx)
@@ -1866,6 +1974,15 @@ class Evaluator:
             self.assign(s.target, v, st, ctx)
             return v
         return None
+
+    def _is_literal(self, v: AV) -> bool:
+        if isinstance(v, (Const, EnumVal)):
+            return True
+        if isinstance(v, Scalar):
+            return v.rf.is_const()
+        if isinstance(v, Tup):
+            return all(self._is_literal(x_) for x_ in v.items)
+        return False
 
     def unroll_for(self, loop: ast.For, its: List[AV], i: int, rest, st: State, ctx: Ctx):
         """`for` over a sequence whose items are known (opt-in, self.unroll): iteration by iteration."""
